@@ -26,7 +26,7 @@ def c2mAggArgQ' (q : List QT) (ai : ArgInfo) : ArgLoc × ArgInfo :=
     else
       let nI := (q.filter QT.isI).length
       let nF := (q.filter QT.isF).length
-      if ai.nI + nI > 6 ∨ ai.nF + nF > 8 then (0, q, ai)
+      if (nI > 0 ∧ ai.nI + nI > 6) ∨ (nF > 0 ∧ ai.nF + nF > 8) then (0, q, ai)
       else (q.length, q, { nI := ai.nI + nI, nF := ai.nF + nF })
   ((getBlkType r.1 r.2.1).loc r.1, r.2.2)
 
@@ -95,50 +95,83 @@ theorem sysvArg_agg (L : CTy → Lay) (av : Avail) (u : Bool) (ms : Mems) :
 def validList : List (List Cls) :=
   [[.int], [.sse], [.int, .int], [.int, .sse], [.sse, .int], [.sse, .sse], [.x87, .x87up]]
 
-/-- the finite core, evaluated: 7 class patterns × possible qword types × all unsaturated counters -/
-theorem aggArg_fin : ∀ cs ∈ validList, ∀ q ∈ imagesOf cs, ∀ nI, nI < 7 → ∀ nF, nF < 9 →
-    (c2mAggArgQ' q ⟨nI, nF⟩).1 = (sysvAggArg cs ⟨nI, nF⟩).1
-    ∧ (c2mAggArgQ' q ⟨nI, nF⟩).2.nI = (sysvAggArg cs ⟨nI, nF⟩).2.nI
-    ∧ (c2mAggArgQ' q ⟨nI, nF⟩).2.nF = (sysvAggArg cs ⟨nI, nF⟩).2.nF := by
+/-- what `c2mAggArgQ'` looks at -/
+theorem aggQ_shape (q : List QT) (ai : ArgInfo) :
+    c2mAggArgQ' q ai =
+      if q.any (fun x => x == .x87up || x == .ld) = true
+          ∨ ((q.filter QT.isI).length > 0 ∧ ai.nI + (q.filter QT.isI).length > 6)
+          ∨ ((q.filter QT.isF).length > 0 ∧ ai.nF + (q.filter QT.isF).length > 8) then (.stack, ai)
+      else ((getBlkType q.length q).loc q.length,
+            { nI := ai.nI + (q.filter QT.isI).length, nF := ai.nF + (q.filter QT.isF).length }) := by
+  simp only [c2mAggArgQ']
+  by_cases h1 : q.any (fun x => x == .x87up || x == .ld) = true
+  · rw [if_pos h1]; simp [h1, getBlkType, Blk.loc]
+  · rw [if_neg h1]
+    by_cases h2 : ((q.filter QT.isI).length > 0 ∧ ai.nI + (q.filter QT.isI).length > 6)
+        ∨ ((q.filter QT.isF).length > 0 ∧ ai.nF + (q.filter QT.isF).length > 8)
+    · rw [if_pos h2, if_pos (Or.inr h2)]; simp [getBlkType, Blk.loc]
+    · rw [if_neg h2, if_neg (by rintro (h | h); exact h1 h; exact h2 h)]
+
+/-- qword types `q` carry the same information as the classes `cs` -/
+def qMatches (cs : List Cls) (q : List QT) : Bool :=
+  cs.any (fun c => c != .int && c != .sse) == q.any (fun x => x == .x87up || x == .ld)
+  && cnt .int cs == (q.filter QT.isI).length && cnt .sse cs == (q.filter QT.isF).length
+  && (q.any (fun x => x == .x87up || x == .ld) || (getBlkType q.length q).loc q.length == .regs cs)
+
+/-- the finite part, evaluated: 7 class patterns × the qword types `update_last_qword_type` can make -/
+theorem qMatches_fin : ∀ cs ∈ validList, ∀ q ∈ imagesOf cs, qMatches cs q = true := by
   decide +kernel
 
-theorem aggArg_core (cs : List Cls) (hv : validCls cs = true) (size : Nat) (ai : ArgInfo)
-    (hI : ai.nI ≤ 6) (hF : ai.nF ≤ 8) :
-    (c2mAggArg (some cs) size ai).1 = (sysvAggArg cs ⟨ai.nI, ai.nF⟩).1
-    ∧ (c2mAggArg (some cs) size ai).2.nI = (sysvAggArg cs ⟨ai.nI, ai.nF⟩).2.nI
-    ∧ (c2mAggArg (some cs) size ai).2.nF = (sysvAggArg cs ⟨ai.nI, ai.nF⟩).2.nF := by
+/-- the core, for any counters (c2mir's counters also count scalars that went to the stack; the
+psABI's are those counters saturated) -/
+theorem aggArg_sat (cs : List Cls) (q : List QT) (hm : qMatches cs q = true)
+    (ai : ArgInfo) (av : Avail) (hs : Sat ai av) :
+    (c2mAggArgQ' q ai).1 = (sysvAggArg cs av).1 ∧ Sat (c2mAggArgQ' q ai).2 (sysvAggArg cs av).2 := by
+  simp only [qMatches, Bool.and_eq_true, beq_iff_eq, Bool.or_eq_true] at hm
+  obtain ⟨⟨⟨hx, hI⟩, hF⟩, hl⟩ := hm
+  rw [aggQ_shape q ai]
+  unfold sysvAggArg
+  rw [hx, hI, hF]
+  obtain ⟨a, c⟩ := ai
+  obtain ⟨a', c'⟩ := av
+  obtain ⟨h1, h2⟩ := hs
+  simp only at h1 h2
+  subst h1 h2
+  cases hq : q.any (fun x => x == .x87up || x == .ld) with
+  | true => simp [Sat]
+  | false =>
+    have hl' : (getBlkType q.length q).loc q.length = .regs cs := by
+      rcases hl with h | h
+      · rw [hq] at h; cases h
+      · exact h
+    simp only [hl', Bool.false_eq_true, false_or, if_false]
+    clear hx hI hF hl hl' hq
+    generalize (List.filter QT.isI q).length = nI
+    generalize (List.filter QT.isF q).length = nF
+    unfold Sat
+    split <;> split <;> simp_all <;> omega
+
+theorem aggArg_core (cs : List Cls) (hv : validCls cs = true) (size : Nat) (ai : ArgInfo) (av : Avail)
+    (hs : Sat ai av) :
+    (c2mAggArg (some cs) size ai).1 = (sysvAggArg cs av).1
+    ∧ Sat (c2mAggArg (some cs) size ai).2 (sysvAggArg cs av).2 := by
   have hmem : cs ∈ validList := by
     rcases validCls_cases hv with h | h | h | h | h | h | h <;> subst h <;> simp [validList]
-  exact aggArg_fin cs hmem _ (ulq_mem cs hv size) ai.nI (by omega) ai.nF (by omega)
+  exact aggArg_sat cs _ (qMatches_fin cs hmem _ (ulq_mem cs hv size)) ai av hs
 
-theorem aggArg_mem (size : Nat) (ai : ArgInfo) :
-    (c2mAggArg none size ai).1 = (sysvAggArg [.mem] ⟨ai.nI, ai.nF⟩).1
-    ∧ (c2mAggArg none size ai).2 = ai ∧ (sysvAggArg [.mem] ⟨ai.nI, ai.nF⟩).2 = ⟨ai.nI, ai.nF⟩ := by
-  simp [c2mAggArg, sysvAggArg]
-
-/-- one aggregate parameter: with unsaturated counters `get_blk_type` names exactly the registers
-the psABI assigns (and memory exactly when the psABI says memory) -/
-theorem arg_agg (L : CTy → Lay) (u : Bool) (ms : Mems) (ai : ArgInfo) (hok : ClassOK L (.agg u ms))
-    (hI : ai.nI ≤ 6) (hF : ai.nF ≤ 8) :
-    (c2mArg ai (.agg u ms)).1 = (sysvArg L ⟨ai.nI, ai.nF⟩ (.agg u ms)).1
-    ∧ (c2mArg ai (.agg u ms)).2.nI = (sysvArg L ⟨ai.nI, ai.nF⟩ (.agg u ms)).2.nI
-    ∧ (c2mArg ai (.agg u ms)).2.nF = (sysvArg L ⟨ai.nI, ai.nF⟩ (.agg u ms)).2.nF := by
+/-- one aggregate parameter: `get_blk_type` names exactly the registers the psABI assigns (and
+memory exactly when the psABI says memory), and the counters stay related -/
+theorem arg_agg (L : CTy → Lay) (u : Bool) (ms : Mems) (ai : ArgInfo) (av : Avail)
+    (hok : ClassOK L (.agg u ms)) (hs : Sat ai av) :
+    (c2mArg ai (.agg u ms)).1 = (sysvArg L av (.agg u ms)).1
+    ∧ Sat (c2mArg ai (.agg u ms)).2 (sysvArg L av (.agg u ms)).2 := by
   obtain ⟨hcls, hval⟩ := hok
   rw [c2mArg_agg, sysvArg_agg, ← hcls]
   cases hc : c2mClassify (.agg u ms) with
-  | none =>
-    have := aggArg_mem (c2mLay (.agg u ms)).size ai
-    simp only [Option.getD_none]
-    refine ⟨this.1, ?_, ?_⟩ <;> simp [this.2.1, this.2.2]
+  | none => simpa [c2mAggArg, sysvAggArg] using hs
   | some cs =>
     simp only [Option.getD_some]
-    exact aggArg_core cs (hval cs hc) _ ai hI hF
-
-theorem sysvAggArg_bound (cs : List Cls) (av : Avail) (hI : av.nI ≤ 6) (hF : av.nF ≤ 8) :
-    (sysvAggArg cs av).2.nI ≤ 6 ∧ (sysvAggArg cs av).2.nF ≤ 8 := by
-  unfold sysvAggArg
-  repeat' split
-  all_goals simp_all
+    exact aggArg_core cs (hval cs hc) _ ai av hs
 
 theorem c2mArg_sc (ai : ArgInfo) (s : Sc) :
     c2mArg ai (.sc s) =
@@ -150,12 +183,10 @@ theorem c2mArg_sc (ai : ArgInfo) (s : Sc) :
 
 /-- `proto_meets_sysv_partial`, parameters -/
 theorem args_eq (L : CTy → Lay) : ∀ (ts : List CTy) (ai : ArgInfo) (av : Avail), Sat ai av →
-    (∀ t ∈ ts, isParamTy t = true ∧ (isAgg t = true → ClassOK L t)) → countersOk ai ts = true →
+    (∀ t ∈ ts, isParamTy t = true ∧ (isAgg t = true → ClassOK L t)) →
     c2mArgsFrom ai ts = sysvArgsFrom L av ts
-  | [], _, _, _, _, _ => rfl
-  | t :: ts, ai, av, hsat, hts, hc => by
-    obtain ⟨hs1, hs2⟩ := hsat
-    simp only [countersOk, Bool.and_eq_true] at hc
+  | [], _, _, _, _ => rfl
+  | t :: ts, ai, av, hsat, hts => by
     have ht := hts t (by simp)
     have hrest : ∀ t' ∈ ts, isParamTy t' = true ∧ (isAgg t' = true → ClassOK L t') :=
       fun t' h => hts t' (by simp [h])
@@ -163,6 +194,7 @@ theorem args_eq (L : CTy → Lay) : ∀ (ts : List CTy) (ai : ArgInfo) (av : Ava
     cases t with
     | arr n e => simp [isParamTy] at ht
     | sc s =>
+      obtain ⟨hs1, hs2⟩ := hsat
       have hstep : (c2mArg ai (.sc s)).1 = (sysvArg L av (.sc s)).1
           ∧ Sat (c2mArg ai (.sc s)).2 (sysvArg L av (.sc s)).2 := by
         rw [c2mArg_sc]
@@ -172,21 +204,11 @@ theorem args_eq (L : CTy → Lay) : ∀ (ts : List CTy) (ai : ArgInfo) (av : Ava
         unfold sysvArg Sat
         cases s <;> simp [scCls] <;> (repeat' split) <;> simp_all <;> omega
       simp only [hstep.1]
-      rw [args_eq L ts _ _ hstep.2 hrest hc.2]
+      rw [args_eq L ts _ _ hstep.2 hrest]
     | agg u ms =>
-      simp [isAgg] at hc
-      have hav : av = ⟨ai.nI, ai.nF⟩ := by
-        obtain ⟨aI, aF⟩ := av
-        simp only at hs1 hs2
-        simp [hs1, hs2]; omega
-      subst hav
-      obtain ⟨h1, h2, h3⟩ := arg_agg L u ms ai (ht.2 (by simp [isAgg])) hc.1.1 hc.1.2
-      have hb := sysvAggArg_bound (sysvClass L (.agg u ms)) ⟨ai.nI, ai.nF⟩ hc.1.1 hc.1.2
-      rw [← sysvArg_agg] at hb
-      have hsat' : Sat (c2mArg ai (.agg u ms)).2 (sysvArg L ⟨ai.nI, ai.nF⟩ (.agg u ms)).2 := by
-        unfold Sat; omega
+      obtain ⟨h1, h2⟩ := arg_agg L u ms ai av (ht.2 (by simp [isAgg])) hsat
       simp only [h1]
-      rw [args_eq L ts _ _ hsat' hrest hc.2]
+      rw [args_eq L ts _ _ h2 hrest]
 
 /-! ### return values -/
 
@@ -242,8 +264,7 @@ theorem ret_sc (L : CTy → Lay) (s : Sc) : c2mRet (.sc s) = sysvRet L (.sc s) :
 /-- `proto_meets_sysv_partial` -/
 theorem proto_eq (L : CTy → Lay) (ret : Option CTy) (ps : List CTy)
     (hret : ∀ t, ret = some t → isParamTy t = true ∧ (isAgg t = true → ClassOK L t))
-    (hps : ∀ t ∈ ps, isParamTy t = true ∧ (isAgg t = true → ClassOK L t))
-    (hc : countersOk { nI := if ret.map c2mRet = some .sret then 1 else 0 } ps = true) :
+    (hps : ∀ t ∈ ps, isParamTy t = true ∧ (isAgg t = true → ClassOK L t)) :
     c2mProto ret ps = sysvProto L ret ps := by
   have hr : ret.map c2mRet = ret.map (sysvRet L) := by
     cases ret with
@@ -257,7 +278,7 @@ theorem proto_eq (L : CTy → Lay) (ret : Option CTy) (ps : List CTy)
   unfold c2mProto sysvProto
   simp only [← hr]
   congr 1
-  apply args_eq L ps _ _ _ hps hc
+  apply args_eq L ps _ _ _ hps
   unfold Sat
   split <;> simp
 
